@@ -338,7 +338,7 @@ package mocker
 
 // the declared parameter types a condition is resolved against (receiver skipped for methods)
 //@ func inTypes
-//@   props C04 C09 C13
+//@   props C04 C13
 //@   requires type: funTyp != nil && rt_kind(funTyp) == reflect.Func
 //@   assume methods_have_a_receiver: isMethod ==> rt_numin(funTyp) >= 1
 //@   assigns nothing
